@@ -243,10 +243,66 @@ fn directed(emit: &mut Emit) {
     }
 }
 
+/// small scope, exhaustive over the CFG shape: every edge set over `n` blocks (entry 0; 2^(n*n) graphs, including
+/// self-loops, loops through the entry, unreachable and irreducible parts), two names, every block filled from a
+/// small menu (random per graph), partition guards reading the names
+fn shapes(n: usize, fills: usize, rng: &mut Rng, emit: &mut Emit) {
+    let g = GenCfg { names: names(&[("x", 8), ("y", 8)]), expr_depth: 1, ..GenCfg::default() };
+    let x = || il::scalar("x", 8);
+    let y = || il::scalar("y", 8);
+    let ex = || il::expr_scalar("x", 8);
+    let ey = || il::expr_scalar("y", 8);
+    let c8 = |v: u64| il::expr_const(v, 8);
+    let cls = format!("shapes/n={}", n);
+    for mask in 0u64..(1u64 << (n * n)) {
+        for _ in 0..fills {
+            let mut cfg = ControlFlowGraph::new();
+            for _ in 0..n {
+                let b = cfg.new_block().unwrap();
+                let k = rng.below(3);
+                for _ in 0..k {
+                    match rng.below(7) {
+                        0 => b.assign(x(), c8(rng.below(4))),
+                        1 => b.assign(x(), E::add(ex(), c8(1)).unwrap()),
+                        2 => b.assign(y(), ex()),
+                        3 => b.assign(y(), E::add(ey(), ex()).unwrap()),
+                        4 => b.assign(x(), ey()),
+                        5 => b.assign(y(), c8(rng.below(4))),
+                        _ => b.nop(),
+                    }
+                }
+            }
+            for h in 0..n {
+                let tails: Vec<usize> = (0..n).filter(|t| mask >> (h * n + t) & 1 == 1).collect();
+                let guards = fvh::genil::partition_guards(rng, &g, tails.len());
+                for (t, c) in tails.iter().zip(guards) {
+                    match c {
+                        None => cfg.unconditional_edge(h, *t).unwrap(),
+                        Some(c) => cfg.conditional_edge(h, *t, c).unwrap(),
+                    }
+                }
+            }
+            cfg.set_entry(0).unwrap();
+            emit.case(&cls, function_str(&Function::new(0x1000, cfg)));
+        }
+    }
+}
+
 fn generate(tier: Tier, rng: &mut Rng, emit: &mut Emit) {
     directed(emit);
+    match tier {
+        Tier::Quick => {
+            shapes(2, 4, rng, emit);
+            shapes(3, 1, rng, emit);
+        }
+        Tier::Thorough => {
+            shapes(2, 16, rng, emit);
+            shapes(3, 8, rng, emit);
+            shapes(4, 1, rng, emit);
+        }
+    }
     let n = match tier {
-        Tier::Quick => 700,
+        Tier::Quick => 600,
         Tier::Thorough => 9000,
     };
     let streams: Vec<(&str, GenCfg)> = vec![
